@@ -10,28 +10,7 @@
 (* snd   clock identity of the sender of the Announce                      *)
 (* rcv   identity of the receiving port                                    *)
 (***************************************************************************)
-EXTENDS Naturals, Integers, Sequences, FiniteSets
-
-\* lexicographic "<" on the six grandmaster attributes (Figure 34)
-GmLess(a, b) == \E i \in 1..6 : a[i] < b[i] /\ \A j \in 1..(i - 1) : a[j] = b[j]
-
-\* Figure 34 / 35.  Result: "B" better, "BT" better by topology, "E1", "E2"
-\* error-1 / error-2, "WT" worse by topology, "W" worse  (of a relative to b)
-Compare(a, b) ==
-  IF a.gm[6] # b.gm[6] THEN (IF GmLess(a.gm, b.gm) THEN "B" ELSE "W")
-  ELSE IF a.steps > b.steps + 1 THEN "W"
-  ELSE IF a.steps + 1 < b.steps THEN "B"
-  ELSE IF a.steps > b.steps THEN
-       (IF a.rcv[1] < a.snd THEN "W" ELSE IF a.rcv[1] = a.snd THEN "E1" ELSE "WT")
-  ELSE IF a.steps < b.steps THEN
-       (IF b.rcv[1] < b.snd THEN "B" ELSE IF b.rcv[1] = b.snd THEN "E1" ELSE "BT")
-  ELSE IF a.snd < b.snd THEN "BT"
-  ELSE IF a.snd > b.snd THEN "WT"
-  ELSE IF a.rcv[2] < b.rcv[2] THEN "BT"
-  ELSE IF a.rcv[2] > b.rcv[2] THEN "WT" ELSE "E2"
-
-\* 1: a preferred, 0: tie (error cases), 2: b preferred
-Rank(c) == IF c \in {"B", "BT"} THEN 1 ELSE IF c \in {"E1", "E2"} THEN 0 ELSE 2
+EXTENDS BmcaCompare     \* GmLess, Compare, Rank, Flip (Figures 34 / 35)
 
 \* Data set of the local clock (D0 of Figure 33)
 D0(ownAttr, own) == [gm |-> ownAttr, steps |-> 0, snd |-> own, rcv |-> <<own, 0>>]
@@ -64,5 +43,4 @@ Decision(d0, class, ebest, erbest, same, listening) ==
 (* MCBmcaLaws): Compare is antisymmetric, its strict part is transitive    *)
 (* except through the error cases, and ties arise only as E1/E2.           *)
 (***************************************************************************)
-Flip(c) == CASE c = "B" -> "W" [] c = "W" -> "B" [] c = "BT" -> "WT" [] c = "WT" -> "BT" [] OTHER -> c
 =============================================================================
